@@ -32,6 +32,7 @@ type Frame struct {
 	top    bool
 	bind   []Value // free variable bindings (closures)
 	names  map[string][]ssa.Value
+	fid    int // frame number within the VC (value-sequence version keys)
 	// nameAt: the block of the debug reference that recorded names[name][i]
 	nameAt map[string][]*ssa.BasicBlock
 	order  []*ssa.BasicBlock
@@ -127,7 +128,18 @@ func (f *Frame) value(v ssa.Value, st *State) Value {
 }
 
 func (f *Frame) verKey(v ssa.Value) string {
-	return fmt.Sprintf("V:%p:%s", f, v.Name())
+	// (keyed by a per-VC frame number, not by the frame's address: the SMT text of an
+	// obligation must be the same on every run, or the solvers' behaviour is not)
+	return fmt.Sprintf("V:f%d:%s", f.fnum(), v.Name())
+}
+
+// fnum: the number of this frame within its VC (stable across runs).
+func (f *Frame) fnum() int {
+	if f.fid == 0 {
+		f.vc.nframes++
+		f.fid = f.vc.nframes
+	}
+	return f.fid
 }
 
 func derefType(t types.Type) types.Type {
